@@ -51,6 +51,38 @@ def derive(obj, by, in_place):
     return res
 
 
+class _Names:
+    """one of the name lists of a ColumnInfo (absent / expanded / ... column names): unknown content; may be empty or not"""
+
+    __pyvc_symbolic__ = True
+
+    def __init__(self, name):
+        self.name = name
+        self._truth = None
+
+    def pyvc_truth(self):
+        if self._truth is None:
+            self._truth = core.sym_bool(f"bool({self.name})")
+        return self._truth
+
+
+class ColumnInfoVal:
+    """the ColumnInfo computed from ONE table at one moment: its name lists are unknown, but each is one list (asked twice, same answer)"""
+
+    __pyvc_symbolic__ = True
+
+    def __init__(self, name):
+        self.name = name
+        self.lists = {}
+
+    def pyvc_missing_attr(self, I, attr):
+        if attr.startswith("_"):
+            raise core.Unsupported(f"ColumnInfo.{attr}")
+        if attr not in self.lists:
+            self.lists[attr] = _Names(f"{self.name}.{attr}")
+        return self.lists[attr]
+
+
 class ContainerValidate(Contract):
     target = f"{DF}.validate"
     raises = (TypeError, SchemaDefinitionError, SchemaError, SchemaErrors, OtherException)
@@ -102,7 +134,7 @@ class ContainerValidate(Contract):
         def column_info(I, s, obj, schema):
             # ColumnInfo describes the columns of the table it is computed from AT THAT MOMENT (parsers add / remove columns, some in place)
             p = cur()
-            ci = SAny(name=f"column_info#{len(p.ghost.setdefault('column_infos', []))}")
+            ci = ColumnInfoVal(f"column_info#{len(p.ghost.setdefault('column_infos', []))}")
             p.ghost["column_infos"].append((ci, obj, len(p.ghost.get("calls", []))))
             return ci
 
@@ -280,6 +312,19 @@ def _container_probe(rec):
         if got != want or str(res["a"].dtype) != "int64":
             bad = True
             obs["parser chain (add missing, filter, default, coerce)"] = {"expected": want, "got": got}
+        # C04: lazy validation in which add_missing_columns FAILS (its error is only collected): the later parsers must not write
+        # the caller's frame
+        failing = pa.DataFrameSchema({"a": pa.Column(float, coerce=True, default=0.0), "b": pa.Column(int)}, strict="filter", add_missing_columns=True)
+        caller = pd.DataFrame({"a": [1, None], "x": [0, 0]}, index=pd.Index([5, 6]))
+        before = (list(caller.columns), caller.dtypes.astype(str).tolist(), caller.isna().sum().tolist())
+        try:
+            failing.validate(caller, lazy=True)
+        except (pa.errors.SchemaError, pa.errors.SchemaErrors):
+            pass
+        after = (list(caller.columns), caller.dtypes.astype(str).tolist(), caller.isna().sum().tolist())
+        if before != after:
+            bad = True
+            obs["caller's frame across validate(lazy=True) with a required column that add_missing_columns cannot add"] = {"before": before, "after": after}
         return bad, obs or "tagged frames are re-validated in full; the parser chain is applied in order"
 
     return thunk
